@@ -91,6 +91,12 @@ def call(I, c, e, env):
         val = I.eval(args_e[1], env)
         var, path = I.place(args_e[0], env)
         return do_push(I, var, path, val, env)
+    if name in ("call", "call_mut", "call_once") and tr in ("Fn", "FnMut", "FnOnce") and len(args_e) == 2:
+        # a closure / fn item received as a parameter and called: apply it to the unpacked argument tuple
+        fv = I.eval(args_e[0], env)
+        av = I.eval(args_e[1], env)
+        if isinstance(fv, (Closure, FnItem)) and isinstance(av, Tup):
+            return I.apply(fv, list(av.items))
     if name == "for_each" and tr == "Iterator":
         return for_each(I, args_e, env, e)
     if name == "iter_mut" and args_e:
